@@ -17,7 +17,7 @@ struct FOSel;
 VS_FO(0, UnboundedBlocking, 256, 800, 2048)
 VS_FO(1, UnboundedBlocking, 1024, 0, 16384)
 VS_FO(2, UnboundedBlocking, 131072, 800, 2147483648ull)
-VS_FO(3, UnboundedDropping, 512, 800, 2048)
+VS_FO(3, UnboundedDropping, 512, 800, 3000) // a maximum that is not a power of two: the largest buffer is 2048
 VS_FO(4, BoundedBlocking, 512, 0, 0)
 VS_FO(5, BoundedBlocking, 1024, 800, 0)
 VS_FO(6, BoundedDropping, 512, 800, 0)
